@@ -96,6 +96,10 @@ def check_circuit(params):
     if errs:
         bad("illtyped", "ZX image ill-typed: %s" % errs[:2])
         return out
+    snap = ref.snapshot(c)
+    z2 = circuit2zx(c)
+    if ref.snapshot(z2) != ref.snapshot(z) or ref.snapshot(c) != snap:
+        bad("second-translation", "translating the same circuit again gives %s (first %s), or the circuit was changed" % (z2, z))
     if len(z.dom) != len(c.dom) or len(z.cod) != len(c.cod):
         bad("wires", "ZX image : %d -> %d wires, circuit : %d -> %d" % (len(z.dom), len(z.cod), len(c.dom), len(c.cod)))
         return out
